@@ -82,10 +82,14 @@ def one(name, with_tests):
         rc1, out1 = demo()
         meta['demo_with_change'] = {'exit': rc1, 'tail': out1[-300:]}
         if with_tests:
-            t = sh([PY, '-m', 'pytest', '-q', '-p', 'no:cacheprovider', '--timeout=900', '--continue-on-collection-errors', '-x' if False else '-q'], env=env, cwd=wt, timeout=3600)
-            tail = (t.stdout + t.stderr).strip().splitlines()[-1] if (t.stdout + t.stderr).strip() else ''
-            m = re.search(r'(\d+) passed', tail)
-            meta['repo_tests_with_change'] = {'summary': tail[-160:], 'passed': int(m.group(1)) if m else None}
+            t = sh([PY, '-m', 'pytest', '-q', '-p', 'no:cacheprovider', '--timeout=900', '--continue-on-collection-errors'], env=env, cwd=wt, timeout=5400)
+            text = t.stdout + t.stderr
+            lines_ = [ln for ln in text.splitlines() if re.search(r'\d+ passed', ln)]
+            tail = lines_[-1].strip() if lines_ else (text.strip().splitlines()[-1] if text.strip() else '')
+            m, f_, e_ = re.search(r'(\d+) passed', tail), re.search(r'(\d+) failed', tail), re.search(r'(\d+) errors?', tail)
+            meta['repo_tests_with_change'] = {'summary': tail[-160:], 'passed': int(m.group(1)) if m else None,
+                                              'failed': int(f_.group(1)) if f_ else 0, 'errors': int(e_.group(1)) if e_ else 0,
+                                              'same_as_baseline': bool(m and int(m.group(1)) == 302 and f_ and int(f_.group(1)) == 7 and e_ and int(e_.group(1)) == 4)}
         ck = sh([os.path.join(VERIF, 'check'), prop, '--tier', 'quick', '--no-evidence'], env=dict(os.environ, VERIF_REPO=wt), cwd=VERIF, timeout=3600)
         kinds = {}
         for ln in ck.stdout.splitlines():
